@@ -7,6 +7,7 @@ Heap order after arbitrary operation histories is a runtime-shape property of a 
 """
 import ast
 
+from ..astx import code
 from ..astx import walk_no_nested, dotted, call_name, self_attr, func_params, dominating_conditions, flatten_conditions, \
     parent, ancestors, block_of, inline_stmt_calls
 from ..core import norm, Inconclusive
@@ -58,7 +59,7 @@ def r16h(ctx):
                      "stored keys must be overridden to wrap that key the same way")
     base, mx = m.need_class("FibonacciHeap"), m.need_class("MaxFibonacciHeap")
     init = m.method(mx, "__init__")
-    wraps = init is not None and init.cls == mx and "ReversedComparator(" in ast.unparse(init.node)
+    wraps = init is not None and init.cls == mx and "ReversedComparator(" in code(init.node)
     if not wraps:
         ctx.inconclusive("R16h", "graphtage/fibonacci.py", "MaxFibonacciHeap.__init__", init.node if init else None, "wrapping",
                          "MaxFibonacciHeap no longer wraps keys in ReversedComparator in its constructor")
@@ -202,7 +203,7 @@ def run(ctx):
         else:
             ctx.violation("R16a", fl, "FibonacciHeap.__add__", add.node, "merge sums sizes", "the merged heap's size is not the sum of both sizes")
     ln, bl = f_of("__len__"), f_of("__bool__")
-    if ln and "returnself._n" in ast.unparse(ln.node).replace(" ", "") and bl and "self._n>0" in ast.unparse(bl.node).replace(" ", ""):
+    if ln and "returnself._n" in code(ln.node).replace(" ", "") and bl and "self._n>0" in code(bl.node).replace(" ", ""):
         ctx.proved("R16a", fl, "FibonacciHeap.__len__", ln.node, "len/bool read _n", "len() is _n and truthiness is _n > 0")
     else:
         ctx.violation("R16a", fl, "FibonacciHeap.__len__", (ln or bl).node if (ln or bl) else None, "len/bool read _n",
@@ -293,7 +294,7 @@ def run(ctx):
                       "(push 0,1,2; pop; pop; push 2; decrease_key(older 2, 0) loses every other root)")
     lk = f_of("_link")
     y, x = func_params(lk.node)[1:3]
-    t = ast.unparse(lk.node).replace(" ", "")
+    t = code(lk.node).replace(" ", "")
     need = [f"self._remove_root({y})", f"{x}.add_child({y})", f"{y}.parent={x}", f"{y}.mark=False"]
     miss = [z for z in need if z not in t]
     if miss:
@@ -302,7 +303,7 @@ def run(ctx):
         ctx.proved("R16e", fl, "FibonacciHeap._link", lk.node, "_link bookkeeping", "; ".join(need))
     ct = f_of("_cut")
     xx, yy = func_params(ct.node)[1:3]
-    t = ast.unparse(ct.node).replace(" ", "")
+    t = code(ct.node).replace(" ", "")
     need = [f"{yy}.remove_child({xx})", f"self._append_root({xx})", f"{xx}.mark=False"]
     miss = [z for z in need if z not in t]
     if miss:
@@ -320,7 +321,7 @@ def run(ctx):
                       "push does not replace _min when the new node is smaller than the current minimum (or the heap was empty)")
     dk = f_of("decrease_key")
     xk, kk = func_params(dk.node)[1:3]
-    t = ast.unparse(dk.node).replace(" ", "").replace("    ", "")
+    t = code(dk.node).replace(" ", "").replace("    ", "")
     if f"if{xk}<self._min:\nself._min={xk}" in t:
         ctx.proved("R16f", fl, "FibonacciHeap.decrease_key", dk.node, "decrease_key updates min", f"if {xk} < _min: _min = {xk}")
     else:
@@ -396,7 +397,7 @@ def run(ctx):
     hq = m.need_class("HeapNode")
     lt = m.method(hq, "__lt__")
     o = func_params(lt.node)[1]
-    t = ast.unparse(lt.node).replace(" ", "").replace("(", "").replace(")", "")
+    t = code(lt.node).replace(" ", "").replace("(", "").replace(")", "")
     if f"returnself.deletedandnot{o}.deletedorself.key<{o}.key" in t:
         ctx.proved("R16g", fl, "HeapNode.__lt__", lt.node, "node order", "(deleted and not other.deleted) or key < other.key")
     else:
